@@ -302,6 +302,8 @@ mutual
     | .remove p t => simp only [execOp]; exact removeOp_ok p t cs
     | .farcallList items => simp only [execOp]; exact farcallListOp_ok cfg items cs
     | .raise => simp only [execOp]; exact ResOK.stop cs _
+    | .attempt body => simp only [execOp]; exact execOps_ok cfg body cs
+    | .loadBad p => simp only [execOp]; exact ResOK.stop cs _
   theorem execOps_ok (cfg : Cfg) (ops : List Op) (cs : CS) : ResOK cs (execOps cfg ops cs) := by
     match ops with
     | [] => simp only [execOps]; exact ResOK.stop cs none
